@@ -1,19 +1,20 @@
 #!/bin/bash
-# confirm_mutation.sh <ID> [extra rustflags]  -- re-confirms a seeded change in its scratch worktree /tmp/mut-<ID>:
-#   suite passes with the change; demo fails with it; demo passes without it.
-ID="$1"; FLAGS="${2:-}"
+# confirm_mutation.sh <ID> [crate (default fastrace)] [extra cargo test args] -- re-confirms a seeded change in /tmp/mut-<ID>:
+#   suite passes with the change; demo fails with it; demo passes without it.  Env: DEMO_RUSTFLAGS
+ID="$1"; CRATE="${2:-fastrace}"; EXTRA="${3:-}"
 W=/tmp/mut-$ID; O=/tmp/mut-$ID-out
 cd "$W" || exit 2
-git checkout -q -- . ; rm -f fastrace/tests/demo_mutation.rs
-export CARGO_TARGET_DIR=$W/target CARGO_NET_OFFLINE=true RUST_BACKTRACE=0
+git checkout -q -- . ; rm -f */tests/demo_mutation*.rs
+unset CARGO_TARGET_DIR
+export CARGO_NET_OFFLINE=true RUST_BACKTRACE=0
 git apply "$O/patch.diff" || { echo "patch does not apply"; exit 2; }
 echo "--- suite with the change"
-cargo nextest run --workspace --no-fail-fast --offline 2>&1 | grep -E "Summary|FAIL" | head -5
-cp "$O/demo_mutation.rs" fastrace/tests/demo_mutation.rs
-echo "--- demo with the change (expect failure)"
-RUSTFLAGS="$FLAGS" CARGO_TARGET_DIR=$W/target-demo cargo test -p fastrace@0.7.9 --test demo_mutation --offline -- --test-threads=1 2>&1 | grep -E "^test result|^test .* (ok|FAILED)" | head -8
+CARGO_TARGET_DIR=$W/target cargo nextest run --workspace --no-fail-fast --offline 2>&1 | grep -E "Summary|FAIL" | head -5
+cp "$O"/demo_mutation*.rs $CRATE/tests/ 2>/dev/null || { mkdir -p $CRATE/tests; cp "$O"/demo_mutation*.rs $CRATE/tests/; }
+TESTS=$(cd $CRATE/tests && ls demo_mutation*.rs | sed 's/\.rs$//' | sed 's/^/--test /' | tr '\n' ' ')
+run() { (cd $CRATE && RUSTFLAGS="${DEMO_RUSTFLAGS:-}" CARGO_TARGET_DIR=$W/target-demo timeout 300 cargo test $TESTS --offline $EXTRA -- --test-threads=1 2>&1 | grep -E "^test result|^test .* (ok|FAILED)|^error" | head -8); }
+echo "--- demo with the change (expect failure)"; run
 git apply -R "$O/patch.diff"
-echo "--- demo without the change (expect pass)"
-RUSTFLAGS="$FLAGS" CARGO_TARGET_DIR=$W/target-demo cargo test -p fastrace@0.7.9 --test demo_mutation --offline -- --test-threads=1 2>&1 | grep -E "^test result|^test .* (ok|FAILED)" | head -8
-rm -f fastrace/tests/demo_mutation.rs
-git status --short | head -3
+echo "--- demo without the change (expect pass)"; run
+rm -f */tests/demo_mutation*.rs
+git status --short | grep -v target | head -3
